@@ -165,7 +165,9 @@ def extend(g, api):
         text = strip_comments(read(MOD))
         body = fn_body(text, 'poll_transmit')
         ms = re.findall(r'if\s+(self\.path\.in_flight\.bytes[^{]*?self\.path\.congestion\.window\(\))\s*\{', body)
-        if len(ms) != 1:
+        # the test appears where a datagram is started and (since `fix: congestion check for application data coalesced
+        # behind an unchecked datagram`) in the coalescing branch: every occurrence must be the same expression
+        if not 1 <= len(ms) <= 2 or len(set(re.sub(r'\s+', ' ', m) for m in ms)) != 1:
             raise TranslateError(f'poll_transmit congestion test: {len(ms)} candidates')
         src = re.sub(r'self\.path\.congestion\.window\(\)', 'congestion_window', ms[0])
         e = translate_expr(src, {'self.path.in_flight.bytes': 'inFlight', 'bytes_to_send': 'bytesToSend',
